@@ -1537,7 +1537,7 @@ fn sites_for(kind: &str) -> Vec<u32> {
     match kind {
         "mpsc" => (1..=8).collect(),
         "spsc" => (10..=15).collect(),
-        "spmc" | "spmcq" => (20..=33).collect(),
+        "spmc" | "spmcq" => (20..=34).collect(),
         _ => (35..=41).collect(),
     }
 }
